@@ -21,7 +21,7 @@ RULE = (
     "(inside a handler of web.Server) talks to a scripted RFC 6455 peer on a deterministic virtual-time loop.  A case is "
     "a configuration (side, autoclose, autoping, heartbeat, receive timeout, close timeout, peer answers pings / echoes "
     "close) plus a schedule: a total order of events from the menu {start receive loop, single receive, close(code) "
-    "from another task, send, ping, peer text/ping/pong/close(code)/garbage frame, peer EOF, peer reset, cancel the "
+    "from another task, send (small / 40 KB compressed / 200 KB), ping, peer text/ping/pong/close(code)/garbage frame, peer stops / resumes reading, peer EOF, peer reset, cancel the "
     "receive task, cancel the close task, advance virtual time by a fraction or multiple of the timeouts}, each followed "
     "by a number of loop iterations (0..3 or until idle) before the next event.  exhaustive: all schedules up to length "
     "3 (quick) / 4 (thorough) over the menu for a grid of configurations; sampled: Hypothesis schedules up to length 9 "
@@ -37,7 +37,7 @@ RULE = (
 ASSUMPTIONS = [
     "close-code oracle is three-valued: protocol errors (garbage frames), cancellations and mixed histories are DON'T-CARE",
     "a receive() on a healthy, silent connection without receive timeout may block: only checked after close/loss",
-    "write stalls (peer not reading) are not part of the schedule menu",
+    "write stalls: the peer may stop reading (peer_pause) while 200 KB frames are sent; executor jobs finish k loop iterations later",
 ]
 
 warnings.simplefilter("ignore")
@@ -155,6 +155,7 @@ class Peer(memnet.ScriptPeer):
 
 
 TERMINAL = ("CLOSE", "CLOSING", "CLOSED", "ERROR")
+HUGE = b"h" * 200_000  # more than the transport's high-water mark
 BIG = bytes((i * 31 + (i >> 5)) % 251 for i in range(40000))  # > WEBSOCKET_MAX_SYNC_CHUNK_SIZE: compressed in the executor
 
 
@@ -299,6 +300,8 @@ class World:
                     await self.ws.send_str("hi")
                 elif what == "send_big":
                     await self.ws.send_bytes(BIG)
+                elif what == "send_huge":
+                    await self.ws.send_bytes(HUGE)
                 else:
                     await self.ws.ping()
             except asyncio.CancelledError:
@@ -335,6 +338,15 @@ class World:
                 self.peer.send(b"\xff\xff\xff\xff")  # reserved bits + reserved opcode
             elif what.startswith("close:"):
                 self.peer.send_close(int(what[6:]))
+        elif kind == "peer_pause":
+            # the peer stops reading: our writes pile up and the transport asks us to pause writing
+            if self.peer.transport is not None and not self.peer.transport.closing:
+                self.peer.transport.pause_reading()
+        elif kind == "peer_resume":
+            if self.peer.transport is not None and not self.peer.transport.closing:
+                self.peer.transport.resume_reading()
+        elif kind == "send_huge":
+            self._other("send_huge")
         elif kind == "eof":
             if self.peer.transport is not None:
                 self.peer.transport.close()
@@ -518,6 +530,8 @@ def menu(cfg: dict) -> list[list]:
          ["peer", "garbage"], ["eof"], ["rst"], ["cancel", "recv"], ["cancel", "close"], ["tick", 0.6 * T], ["tick", 3 * T]]
     if cfg.get("compress"):
         m = [["recv"], ["close", 1000], ["send"], ["send_big"], ["peer", "close:1000"], ["eof"], ["cancel", "close"], ["tick", 3 * T]]
+    if cfg.get("write_stall"):
+        m = [["recv"], ["close", 1000], ["send_huge"], ["peer_pause"], ["peer_resume"], ["peer", "close:1000"], ["eof"], ["cancel", "close"], ["tick", 0.6 * T]]
     return m
 
 
@@ -559,6 +573,8 @@ def sampled_cases(draw):
                    peer_pong=draw(st.booleans()), peer_echo=draw(st.booleans()))
     m = menu(cfg) + [["recv1"], ["ping"], ["peer", "pong"], ["tick", 0.1], ["tick", 1.1 * T], ["peer", "close:1001"]]
     if draw(st.integers(0, 2)) == 0:
+        m += [["peer_pause"], ["peer_resume"], ["send_huge"], ["send_huge"]]
+    if draw(st.integers(0, 2)) == 0:
         cfg["compress"] = True
         cfg["exec_delay"] = draw(st.integers(1, 4))
         m += [["send_big"], ["send_big"], ["send"]]
@@ -586,6 +602,8 @@ CONFIGS = [
     base_cfg("server", recv_timeout=3.0),
     base_cfg("client", compress=True, exec_delay=2),
     base_cfg("server", compress=True, exec_delay=2),
+    base_cfg("client", write_stall=True),
+    base_cfg("server", write_stall=True),
 ]
 
 
@@ -594,7 +612,7 @@ def units(tier: str, seed: int) -> list[Unit]:
     length = 3 if tier == "quick" else 4
     nsh = 2 if tier == "quick" else 8
     for ci, cfg in enumerate(CONFIGS):
-        comp = bool(cfg.get("compress"))
+        comp = bool(cfg.get("compress") or cfg.get("write_stall"))
         for sh in range(nsh):
             us.append(Unit(f"exh-{ci}-{sh}", unit_exhaustive, {"cfg": cfg, "length": length + (1 if comp else 0), "shard": sh, "nshards": nsh,
                                                             "gaps": [-1, 1] if (tier == "thorough" or comp or ci < 4) else [-1]}))
